@@ -11,6 +11,8 @@ VERUS = {
                     (r"clause: .*sync_seqn", ["C04", "C14"]),
                 ]},
     "v2_store_commit": {"template": "units/verus/v2_store_commit.rs.tmpl", "rlimit": 30},
+    "v5_overflow_pages": {"template": "units/verus/v5_overflow_pages.rs.tmpl", "rlimit": 60},
+    "v6_free_list": {"template": "units/verus/v6_free_list.rs.tmpl", "rlimit": 60},
     "v7_hasher": {"template": "units/verus/v7_hasher.rs.tmpl", "rlimit": 30},
     "v8_write_ht": {"template": "units/verus/v8_write_ht.rs.tmpl", "rlimit": 30,
                     "playback_scenarios": {"write_ht": ("nomt", "replay_write_ht_reports_failed_page_write")}},
@@ -23,6 +25,48 @@ VERUS = {
 }
 
 KANI = {
+    "k6_bit_ops": {
+        "crate": "nomt", "module": "beatree::ops::bit_ops::verif_kani", "module_file": "/verif/units/kani/bit_ops.rs",
+        "harnesses": [
+            {"name": "prefix_len_is_lcp", "complete": True, "about": "bit_ops::prefix_len",
+             "contract": "forall a, b: r <= 256; bits below r agree; bit r differs when r < 256; r == 256 iff a == b (loops bounded by the key width: complete)"},
+            {"name": "separator_len_spec", "complete": True, "about": "bit_ops::separator_len",
+             "contract": "forall k: r == max(1, 256 - trailing zero bits of k)"},
+            {"name": "separate_is_shortest_separator", "complete": True, "about": "bit_ops::separate",
+             "contract": "forall a < b: a < s <= b; s agrees with b on its first lcp+1 bits and is zero afterwards; separator_len(s) == lcp+1"},
+        ],
+        "functions": [("nomt/src/beatree/ops/bit_ops.rs", "prefix_len"), ("nomt/src/beatree/ops/bit_ops.rs", "separate"), ("nomt/src/beatree/ops/bit_ops.rs", "separator_len")],
+        "unwindset": ["memcmp.0:34"],
+        "harness_timeout": 900,
+    },
+    "k6_memcpy": {
+        "crate": "nomt", "module": "beatree::ops::bit_ops::verif_kani", "module_file": "/verif/units/kani/bit_ops.rs",
+        "harnesses": [
+            {"name": "bitwise_memcpy_%dchunk%s" % (n, "" if n == 1 else "s"), "complete": False,
+             "bound": "source of exactly %d chunk(s) of 8 bytes (covers every single-separator copy, <= 256 bits at bit offset < 8, when taken over 1..5); destination <= 48 bytes; range copies of more chunks (push_chunk) are not covered" % n,
+             "about": "bit_ops::bitwise_memcpy",
+             "contract": "forall source bytes, destination bytes, bit offsets < 8, lengths that fit: destination bit dstart+j == source bit sstart+j for every j < len, every other destination bit unchanged"}
+            for n in (1, 2, 3, 4, 5)
+        ],
+        "functions": [("nomt/src/beatree/ops/bit_ops.rs", "bitwise_memcpy"), ("nomt/src/beatree/ops/bit_ops.rs", "first_chunk_mask"), ("nomt/src/beatree/ops/bit_ops.rs", "last_chunk_mask")],
+        "unwindset": ["memcmp.0:34"],
+        "harness_timeout": 900,
+    },
+    "k5_overflow": {
+        "crate": "nomt", "module": "beatree::ops::overflow::verif_kani", "module_file": "/verif/units/kani/overflow.rs",
+        "harnesses": [
+            {"name": "total_needed_pages_contract", "complete": True, "tier": "thorough", "about": "overflow::total_needed_pages (Kani twin of Verus unit v5; ~5 min of SAT)",
+             "contract": "forall 1 <= v <= 2^29: P >= 1, P*4092 >= v + 4*max(0,P-15), (P-1)*4092 < v + 4*max(0,P-15)"},
+        ] + [
+            {"name": "overflow_cell_roundtrip_%d" % n, "complete": True, "tier": ("quick" if n in (1, 2, 15) else "thorough"),
+             "about": "overflow::{encode_cell, decode_cell}",
+             "contract": "decode_cell(encode_cell(size, hash, pages)) == (size, hash, pages) for %d page numbers (one harness per n in 1..=15, the format's bound)" % n}
+            for n in range(1, 16)
+        ],
+        "functions": [("nomt/src/beatree/ops/overflow.rs", "total_needed_pages"), ("nomt/src/beatree/ops/overflow.rs", "needed_pages"), ("nomt/src/beatree/ops/overflow.rs", "encode_cell"), ("nomt/src/beatree/ops/overflow.rs", "decode_cell")],
+        "unwindset": ["memcmp.0:34"],
+        "harness_timeout": 900,
+    },
     "k_hasher": {
         "crate": "nomt-core", "module": "hasher::verif_kani", "module_file": "/verif/units/kani/core_hasher.rs",
         "harnesses": [
@@ -79,7 +123,12 @@ PROPERTIES = {
             "level_text": "Sync::sync, extracted byte-for-byte on every run, is proved for all inputs against callee contracts in which Meta::write requires the WAL, value files and rollback range named by the new meta to be durable and every post-switch-over step requires the committed meta. Proof of the ordering inside the orchestrating function, not of the whole system.",
             "level_note": "callee contracts (bitbox/beatree/rollback sync controllers, Meta::write) are assumed (stubs) except where a Kani harness discharges them; threads behind begin_sync, fsync semantics of the OS and the u32 sequence number not wrapping are assumed",
             "explanation": "", "assumptions": ["callee contracts listed in trusted_base", "fsync makes data durable", "sync_seqn < u32::MAX", "panic_on_sync test knob is off"]},
-    "C16": {"verus": [], "kani": ["k2_meta"], "level": "proof",
+    "C01": {"verus": ["v5_overflow_pages"], "kani": ["k6_bit_ops", "k6_memcpy", "k5_overflow"], "level": "proof",
+            "technique": "contract-based verification of the functions every lookup rests on (Verus: overflow page sizing; Kani over full-domain symbolic keys: separators, prefix length, bit-level copy, overflow cell codec)",
+            "level_text": "component level: the arithmetic and bit-level functions that key lookup, prefix compression and multi-page values rest on are proved against mathematical specifications for all inputs (complete where loops are bounded by the key width; bitwise_memcpy bounded to 5 chunks). The for-all-histories statement itself (leaf/branch updaters, splits, merges, staging) is not decided by this technique.",
+            "level_note": "Kani/CBMC and Verus/Z3; the updaters (leaf_stage, branch_stage, *_updater, branch_ops), index and staging maps are outside the verified set",
+            "explanation": "", "assumptions": ["leaf/branch stage updaters and the commit history composition are not verified"]},
+    "C16": {"verus": ["v6_free_list"], "kani": ["k2_meta", "k6_bit_ops", "k5_overflow"], "level": "proof",
             "technique": "contract-based verification of the on-disk codecs (Kani harnesses over full-domain symbolic inputs on the real functions; Verus on separators and the free list)",
             "level_text": "format level: each codec pair of the on-disk formats is proved inverse and frame-tight on the real functions; loop-free or format-constant-bounded harnesses are complete proofs, the others are labelled bounded. The whole-image invariant after a history is not decided.",
             "level_note": "Kani/CBMC; PagePool buffers modelled as fresh 4096-byte arrays; bounded harnesses are listed in coverage.bounded_obligations and are not counted as proved",
@@ -89,6 +138,16 @@ PROPERTIES = {
             "level_text": "component level: the real hasher code is proved to separate leaf hashes from internal hashes and the terminator for every input and every underlying hash function (the domain-separation fact every soundness argument starts from); the scope checks of the verifiers are checked by Kani harnesses over symbolic proofs (bounded in length). The inductive soundness theorem for arbitrary depth and collision resistance itself are not decided.",
             "level_note": "the binary hash is an uninterpreted function; TERMINATOR == [0;32] is an axiom whose source text is checked by the extractor; collision resistance of blake3/sha2 is assumed and not used",
             "explanation": "", "assumptions": ["collision resistance of the hash (not used by the proved obligations)", "soundness for arbitrary depth is not decided"]},
+    "C17": {"verus": ["v1_sync", "v6_free_list"], "kani": ["k1_wal"], "level": "proof",
+            "technique": "contract-based deductive verification (Verus: destructive post-switch-over steps of Sync::sync require the committed meta; free-list pops hand out only listed pages)",
+            "level_text": "component level: in Sync::sync every step that overwrites or discards data of the previous image (hash-table writeout and WAL truncation, beatree finish_sync, rollback pruning) requires the committed meta as a precondition; the free list hands out exactly the pages it lists, each once (get_nth_pop/discard/pop against the stack view); write_wal touches only the WAL. That leaf/branch stages write only allocator-provided pages is not decided.",
+            "level_note": "callee contracts of the sync controllers are assumed; the whole-module frame condition of the stage writers is not verified",
+            "explanation": "", "assumptions": ["stage writers use only SyncAllocator pages (not verified)"]},
+    "C19": {"verus": ["v6_free_list", "v5_overflow_pages"], "kani": [], "level": "proof",
+            "technique": "contract-based deductive verification (Verus: free-list stack view, length/fragmentation accounting, overflow page count)",
+            "level_text": "component level: FreeList::{pop, discard}, CleanFreeList::get_nth_pop and len_and_fragmented are proved against an abstract stack view for lists of any size (what was handed out is exactly what is removed; len counts exactly the entries; an emptied portion page is released); total_needed_pages gives the exact page count both chunk and delete use. Conservation across FreeList::commit and the hash-table occupancy counter are not decided.",
+            "level_note": "FreeList::commit/preallocate/push_and_encode (fragmentation case) and bitbox occupancy accounting are not verified",
+            "explanation": "", "assumptions": ["FreeList::commit not verified", "bitbox occupancy accounting not verified"]},
     "C12": {"verus": ["v3_commit_entry"], "kani": [], "level": "proof",
             "technique": "contract-based deductive verification (Verus on the four commit entry points extracted verbatim; effects require an `authorised()` token only the base check yields)",
             "level_text": "FinishedSession::{commit,try_commit_nonblocking} and Overlay::{commit,try_commit_nonblocking} are proved for all inputs: every effectful callee (rollback log append, store commit, overlay status flip) and both shared-state assignments require that the previous-root check has passed on this execution. Failures are replayed by scenarios against the real crate.",
